@@ -44,6 +44,8 @@ CONSTANTS Cases,           \* set of cases explored by the model
           DevF13,          \* deviation (finding F13, repaired): residue attributes missing on the atoms of the first residue
           DevVerKey,       \* deviation (finding F17, repaired): WriteBack also drops every interaction whose VERSION number equals the node key of a removed atom
           DevDangEnd,      \* deviation: a dangling interaction is also expected in windows that stick out of the chain end
+          DevNoAtomResname,\* deviation (independent seed C02-2): the residue name is not compared when the atoms of a link are looked up
+          DevOrderedPairs, \* deviation (independent seed C10-2): joined residue pairs are collected and looked up as ORDERED pairs
           DevDegree        \* deviation (C10): degree filter of find_connecting_edges compares the wrong way (m12)
 
 VARIABLES case, st
@@ -237,8 +239,9 @@ NoTiesE(c, e) == LET all == AllLinkInts(c, e.app)
                           \A rp \in RepImg(c.links[x.li], x.iv), rq \in RepImg(c.links[y.li], y.iv) : rp[1] = rq[1] => rp[2] = rq[2]
 NoTies(c) == NoTiesE(c, PEnd(c))
 Stable(c) == PEnd(c).stable
-\* stated domain: every link atom carries a residue name (link-wide or per atom)
-InDomain(c) == \A k \in DOMAIN c.links : \A a \in DOMAIN c.links[k].atoms : "resname" \in DOMAIN c.links[k].atoms[a].sel
+\* stated domain: every link names a residue on at least one of its atoms (a link without any residue name is skipped before matching;
+\* with one, Applies implies Prefilter: that atom can only select an atom of a residue it names)
+InDomain(c) == \A k \in DOMAIN c.links : \E a \in DOMAIN c.links[k].atoms : "resname" \in DOMAIN c.links[k].atoms[a].sel
 
 (* ---- C10, P-layer: residue edges without any atom-level edge between the two residues *)
 AtomEdgeBetween(E, x, y) == \E e \in E : {at[1] : at \in e} = {x, y}
@@ -294,7 +297,10 @@ Windows(b, L) ==
 (* ------------------------------------------------------------------ *)
 \* GraphMatcher(meta_molecule, res_link, node_match=_res_match, edge_match=_linktype_match).subgraph_isomorphisms_iter()
 GMMatches(c, l) == ResMatches(c, l, DevMono, DevNoLinktype)
-ISelSet(c, l, phi, a) == SelSetW(c, l, phi, a, DevF13)
+DropKey(f, k) == [x \in (DOMAIN f) \ {k} |-> f[x]]
+ISelSet(c, l, phi, a) == IF DevNoAtomResname
+   THEN LET r == phi[l.atoms[a].oi] IN { i \in 1..NAt(c, r) : SelOK(FragAttr(c, <<r, i>>), DropKey(l.atoms[a].sel, "resname")) }
+   ELSE SelSetW(c, l, phi, a, DevF13)
 IMin(S) == CHOOSE i \in S : \A j \in S : i <= j
 \* match_link_and_residue_atoms: exactly one atom per link atom (with DevAmbig: the first of several)
 IImgVec(c, l, phi) == TLCEval([a \in DOMAIN l.atoms |-> LET S == ISelSet(c, l, phi, a) IN
@@ -344,8 +350,13 @@ FragDeg(c, at, rm) == IF at[1] = FirstRes(c) THEN Cardinality({e \in BlockEdgesO
 MolDeg(E, at) == Cardinality({e \in E : at \in e})
 IMissing(c, E, rm) ==
   LET allowed(r) == { at \in AtomsOf(c, r) \ rm : IF DevDegree THEN FragDeg(c, at, rm) > MolDeg(E, at) ELSE FragDeg(c, at, rm) # MolDeg(E, at) }
-  IN { {c.edges[j].a, c.edges[j].b} : j \in {q \in DOMAIN c.edges :
-          ~ \E x \in allowed(c.edges[q].a), y \in allowed(c.edges[q].b) : {x, y} \in E} }
+      \* DevOrderedPairs: pairs stored as (residue of the atom inserted first, residue of the other) - atoms are inserted in residue-id
+      \* order - and looked up as (smaller node key, larger node key) - residue nodes are inserted in node-key order
+      linked == { p \in Rs(c) \X Rs(c) : \E x \in AtomsOf(c, p[1]), y \in AtomsOf(c, p[2]) : {x, y} \in E /\ NodeKey(c, x) < NodeKey(c, y) }
+  IN IF DevOrderedPairs
+     THEN { {c.edges[j].a, c.edges[j].b} : j \in {q \in DOMAIN c.edges : <<c.edges[q].a, c.edges[q].b>> \notin linked} }
+     ELSE { {c.edges[j].a, c.edges[j].b} : j \in {q \in DOMAIN c.edges :
+              ~ \E x \in allowed(c.edges[q].a), y \in allowed(c.edges[q].b) : {x, y} \in E} }
 FindMissing == /\ st.pc = "missing"
                /\ st' = [st EXCEPT !.pc = "done", !.missing = IMissing(case, st.final.edges, st.final.removed)]
                /\ UNCHANGED case
